@@ -800,6 +800,9 @@ type c14Plan struct {
 		Managed bool   `json:"managed"`
 	} `json:"certs"`
 	Ops []c14HOp `json:"ops"`
+	// a `<name>.key.compromised` file of an earlier key-compromise incident is already in storage
+	// for every managed name when the history begins
+	PreCompromised bool `json:"pre_compromised,omitempty"`
 }
 
 type c14Hist struct {
@@ -982,6 +985,14 @@ func (wd *c14World) runHist1(plan c14Plan, desc map[string]any, abandoned *bool)
 			t.addCert(c)
 			planned = append(planned, c)
 		}
+	}
+	if plan.PreCompromised {
+		for _, c := range planned {
+			if c.managed {
+				h.b.Put(c14SiteKey(h.iss.IssuerKey(), c.name, ".key")+".compromised", []byte("key of an earlier incident"))
+			}
+		}
+		wd.w.Hist("hist.pre-existing-compromised-key-file")
 	}
 	e := &emit.Enc{}
 	var steps []any
@@ -1603,6 +1614,7 @@ func (wd *c14World) randPlan(r *rand.Rand) c14Plan {
 		}
 		p.Ops = append(p.Ops, c14HOp{Op: opn, Cert: i, Ans: a, Faults: faults(), Disabled: r.Intn(15) == 0, Renew: []string{"ok", "fail", "reload-fail"}[r.Intn(3)]})
 	}
+	p.PreCompromised = r.Intn(6) == 0
 	m := 1 + r.Intn(5)
 	for k := 0; k < m; k++ {
 		switch r.Intn(10) {
@@ -1628,6 +1640,14 @@ func (wd *c14World) randPlan(r *rand.Rand) c14Plan {
 			p.Ops = append(p.Ops, c14HOp{Op: "tamper", Cert: r.Intn(n), Stored: storedKeys[r.Intn(len(storedKeys))]})
 		case 9:
 			p.Ops = append(p.Ops, c14HOp{Op: "cache", Cert: r.Intn(n), Ans: ans(), Faults: faults()})
+		}
+		// a key-compromise revocation of whatever is cached now, the replacement due again at once
+		if r.Intn(5) == 0 {
+			a := one(revokedAns(1))
+			a["new"] = c14Ans{Kind: "resp", Status: []int{ocsp.Good, ocsp.Revoked}[r.Intn(2)], Serial: "right", This: "old", Next: "plus6h", Signer: "ca", Reason: 1}
+			for k := 0; k < 1+r.Intn(2); k++ {
+				p.Ops = append(p.Ops, c14HOp{Op: "maintain", Ans: a, Renew: []string{"ok", "ok", "ok", "fail", "reload-fail"}[r.Intn(5)]})
+			}
 		}
 		// handshakes with on-demand management and manageOne, on a managed certificate
 		if r.Intn(3) == 0 {
@@ -1784,6 +1804,40 @@ func runC14(tier string, seed int64, outdir string, replay string) error {
 			c14HOp{Op: "handshake", Cert: 0, Ans: one(c14Ans{Kind: "resp", Status: ocsp.Good, Serial: "right", This: "recent", Next: "week", Signer: "delegate-noeku"}), Renew: rn},
 			c14HOp{Op: "handshake", Cert: 0, Ans: one(goodAns()), Faults: c14Faults{Store: true}, Renew: rn},
 			c14HOp{Op: "maintain", Ans: one(c14Ans{Kind: "drop"}), Renew: rn}), map[string]any{"class": "manage-revoked-" + rn})
+	}
+	// the same name Revoked for key compromise a SECOND time over the same storage (the
+	// `.key.compromised` file of the first incident is still there), noticed by a tick, by a
+	// handshake or by manageOne, with or without a restart in between, and with such a file present
+	// from the start: each time the certificate must be replaced (or leave the cache)
+	{
+		kc := func(newA c14Ans) map[string]c14Ans {
+			m := one(revokedAns(1))
+			m["new"] = newA
+			return m
+		}
+		for _, pre := range []bool{false, true} {
+			p := mkPlan("m:normal,u:normal",
+				c14HOp{Op: "cache", Cert: 0, Ans: one(staleG)},
+				c14HOp{Op: "cache", Cert: 1, Ans: one(staleG)},
+				c14HOp{Op: "maintain", Ans: kc(staleG), Renew: "ok"},
+				c14HOp{Op: "maintain", Ans: kc(staleG), Renew: "ok"},
+				c14HOp{Op: "maintain", Ans: kc(staleR), Renew: "ok"},
+				c14HOp{Op: "maintain", Ans: kc(goodAns()), Renew: "ok"},
+				c14HOp{Op: "maintain", Ans: one(goodAns()), Renew: "ok"})
+			p.PreCompromised = pre
+			wd.runHist(p, map[string]any{"class": fmt.Sprintf("key-compromise-twice-tick-pre%v", pre)})
+			p = mkPlan("m:normal",
+				c14HOp{Op: "cache", Cert: 0, Ans: one(staleG)},
+				c14HOp{Op: "maintain", Ans: kc(staleG), Renew: "ok"},
+				c14HOp{Op: "restart"},
+				c14HOp{Op: "manage", Cert: 0, Ans: kc(goodAns()), Renew: "ok"},
+				c14HOp{Op: "restart"},
+				c14HOp{Op: "cache", Cert: 0, Ans: one(staleG)},
+				c14HOp{Op: "handshake", Cert: 0, Ans: kc(goodAns()), Renew: "ok"},
+				c14HOp{Op: "maintain", Ans: one(goodAns()), Renew: "ok"})
+			p.PreCompromised = pre
+			wd.runHist(p, map[string]any{"class": fmt.Sprintf("key-compromise-twice-restart-pre%v", pre)})
+		}
 	}
 	// maintenance ticks across a restart over the same storage
 	wd.runHist(mkPlan("m:normal,u:tenday",
